@@ -179,6 +179,11 @@ def ctx_view_for(spec: Spec, i: int, context: Optional[dict]):
 
 def stored_value(spec: Spec, i: int, context: Optional[dict] = None, epoch: int = 0):
     """Value a fault-free run of node i at `epoch` (with nothing cached) gives."""
+    if spec.types[i] == 'TZ':
+        return None                # a task run for its side effects: its result is None
+    if spec.types[i] == 'TE':
+        return U.ExcResult(('N', spec.types[i], spec.labels[i], ctx_view_for(spec, i, context),
+                            tuple(stored_value(spec, j, context, epoch) for j in spec.deps[i]), epoch))
     return ('N', spec.types[i], spec.labels[i], ctx_view_for(spec, i, context),
             tuple(stored_value(spec, j, context, epoch) for j in spec.deps[i]), epoch)
 
@@ -231,8 +236,11 @@ def reference(spec: Spec, requested: Sequence[int], *, precached: Iterable[int] 
             fails.add(i)
             own.add(i)
             continue
-        value[i] = ('N', spec.types[i], spec.labels[i], ctx_view_for(spec, i, context),
-                    tuple(value[j] for j in spec.deps[i]), epoch)
+        value[i] = ('N', spec.types[i], spec.labels[i], ctx_view_for(spec, i, context), tuple(value[j] for j in spec.deps[i]), epoch)
+        if spec.types[i] == 'TZ':
+            value[i] = None
+        elif spec.types[i] == 'TE':
+            value[i] = U.ExcResult(value[i])
     # unaffected = executing nodes none of whose (transitively needed) ancestors failed
     for i in executes:
         if i not in fails:
